@@ -1,5 +1,5 @@
 """C11 — exactly the needed files are on disk: nothing live deleted, nothing dead kept."""
-from gen import lib, dbh, crash
+from gen import lib, dbh, crash, proto
 
 PROP_FILE = "props/C11.v"
 WANT = ("dir",)
@@ -10,6 +10,8 @@ RULE = ("dbhist: histories with flushes, automatic and manual compactions, trivi
         "succeed: a file deleted too early shows up as a read error or a missing key). crash: every "
         "crash image (orphan table files, half-written temp files, superseded manifests) is reopened "
         "and, after quiescence and again after a clean reopen, the same exactness is required. "
+        "proto: after every operation the set of files in the directory (and their contents) must be "
+        "exactly what the extracted protocol model derives, garbage collection included. "
         "Non-trivial: a history that creates at least one table file; distinct by sha1.")
 TRUSTED = ["directory listing of SimFs; current version and file numbers from the DB::verif_dump hook"]
 ASSUMPTIONS = ["reader-vs-deletion interleavings are covered at sched-point granularity by the C05 machinery, not here"]
@@ -27,18 +29,28 @@ def gen_crash(tier, rng):
     return [crash.make_case(rng, i, rng.choice([15, 30, 50]), "step:2") for i in range(n)]
 
 
+def gen_proto(tier, rng):
+    n = 24 if tier == "quick" else 1200
+    return [proto.gen_history(rng, i, rng.choice([12, 25, 40, 60])) for i in range(n)]
+
+
 def suites(tier, seed, rng):
     return [dbh.DbSuite(dbh.corpus("C11") + gen_cases(tier, rng)),
-            crash.CrashSuite(gen_crash(tier, rng), WANT)]
+            crash.CrashSuite(gen_crash(tier, rng), WANT),
+            proto.ProtoSuite(gen_proto(tier, rng))]
 
 
 def replay_suites(rp):
+    if rp.get("suite") == "proto":
+        return [proto.ProtoSuite([rp["case"]])]
     if rp.get("suite") == "crash":
         return [crash.CrashSuite([rp["case"]], WANT)]
     return [dbh.DbSuite([rp["case"]])]
 
 
 def still_fails(suite, case, workdir):
+    if suite == "proto":
+        return proto.still_fails(case, workdir)
     if suite == "crash":
         return crash.still_fails(case, workdir, WANT)
     return dbh.still_fails(case, workdir)
